@@ -40,7 +40,9 @@
        [what keeps it `_partial`: c11_known i = false (exact complement of the open classes
         C10-F1 emptied_list_saved and C11-F5 = C10-F3 edit_while_detached) and `no
         socks_endpoint() operation in the history` -- socks_endpoint() is decided by the oracle
-        on the correspondence run only]
+        on the correspondence run only; and flights_provable i (see Properties/C10.v): operations while a
+        save() is unanswered are covered for every rejected answer, for an acknowledged one when they are
+        reads / needs_save() / assignments / in-place edits (no second save(), no event)]
        Key lemma: parse_keywords(arg, multiline_values=False) groups the lines of EVERY event of
        the envelope by key (Proofs/CfgEvent.event_dict). *)
 From Coq Require Import String.
@@ -90,7 +92,7 @@ Proof. exact bootstrap_synced. Qed.
 Print Assumptions C11_bootstrap_synced.
 
 Theorem C11_oracle_holds_partial : forall i b snap tr,
-  c11_scope i = true -> c11_known i = false -> forallb c11_op (i_ops i) = true ->
+  c11_scope i = true -> c11_known i = false -> forallb c11_op (i_ops i) = true -> flights_provable i = true ->
   model_run i = Some (b, snap, tr) ->
   b = true /\ oracle i b snap tr = true.
 Proof. exact c11_oracle_holds. Qed.
